@@ -80,7 +80,7 @@ def blocks_on_paths_to(f, targets):
 
 
 def check(ctx, rule, key, f, roots, err_blocks, allowed_callees=(), what="caller state"):
-    ctx.visit(f)
+    ctx.visit(f, weak=True)
     if not err_blocks:
         return ctx.ob(rule, key, False, "no error outcome found in %s" % f.short, f.loc())
     al = mut_aliases(f, roots)
